@@ -36,11 +36,11 @@ type dtConfig struct {
 	// Aliases: other SSA values known to hold the same value as Var (repeated loads of an unmodified field)
 	Aliases map[ssa.Value]bool
 	Tables  tableEval
-	Var    ssa.Value
-	Dom    *relang.Set
-	Leaf   func(b *ssa.BasicBlock) (string, bool) // effect reached in this block?
-	TagOf  func(cond ssa.Value) string            // label for a non-variable condition ("" = untagged fork)
-	Max    int
+	Var     ssa.Value
+	Dom     *relang.Set
+	Leaf    func(b *ssa.BasicBlock) (string, bool) // effect reached in this block?
+	TagOf   func(cond ssa.Value) string            // label for a non-variable condition ("" = untagged fork)
+	Max     int
 }
 
 func cmpSplit(op token.Token, k int64, s *relang.Set, varOnLeft bool) (t, f *relang.Set) {
